@@ -7,6 +7,10 @@
 //                                          ProjectingFunction                      -> R y
 //   EMB method solver N D d k nq <X N*D> <Q nq*D>
 //        public API with kernel (linear), distance (Euclidean) and features callbacks on X.
+//   MEANI D N M <ids N> <X M*D>            as MEAN, but the iterator range [begin, end) holds the N sample ids
+//   PROJI D d N M <ids N> <P> <m> <X M*D>  `ids` (any sub-range / permutation / offset block of 0..M-1; X has M
+//   EMBI  method solver N D d k nq M <ids N> <X M*D> <Q nq*D>   samples): row i belongs to sample ids[i];
+//        projection(x_{ids[i]}) is what is printed as row i of `pi`.
 //        -> R emb (N x d), R has 0|1 (projection.implementation non-null), and when non-null:
 //           R kind matrix|other, R P (D x d), R m (D), R pi (N x d: projection(x_i) for every i),
 //           R pq (nq x d: projection(q_j)).
@@ -52,6 +56,19 @@ static bool bad_dim(int v, int hi)
     return v < 0 || v > hi;
 }
 
+// the iterator range handed to tapkee: `n` sample ids, each in [0, m)
+static bool read_ids(std::istringstream& is, int n, int m, std::vector<IndexType>& idx)
+{
+    idx.resize(n);
+    for (int i = 0; i < n; i++)
+    {
+        long v;
+        if (!(is >> v) || v < 0 || v >= m) return false;
+        idx[i] = (IndexType)v;
+    }
+    return true;
+}
+
 int main()
 {
     std::string line;
@@ -64,31 +81,37 @@ int main()
         is >> cmd;
         guarded(k, [&]() {
             auto bad = [&]() { std::cout << "X " << k << " bad-input" << std::endl; };
-            if (cmd == "MEAN")
+            if (cmd == "MEAN" || cmd == "MEANI")
             {
-                int D, N;
+                int D, N, M;
                 is >> D >> N;
+                M = N;
+                if (cmd == "MEANI") is >> M;
                 DenseMatrix Xr;
-                if (!is || bad_dim(D, 4096) || bad_dim(N, 100000) || N == 0 || !read_matrix(is, N, D, Xr)) return bad();
+                std::vector<IndexType> idx(N > 0 ? N : 0);
+                if (!is || bad_dim(D, 4096) || bad_dim(N, 100000) || bad_dim(M, 100000) || N == 0) return bad();
+                if (cmd == "MEANI") { if (!read_ids(is, N, M, idx)) return bad(); }
+                else std::iota(idx.begin(), idx.end(), 0);
+                if (!read_matrix(is, M, D, Xr)) return bad();
                 DenseMatrix X = Xr.transpose();
-                std::vector<IndexType> idx(N);
-                std::iota(idx.begin(), idx.end(), 0);
                 eigen_features_callback fcb(X);
                 DenseVector m = tapkee_internal::compute_mean(idx.begin(), idx.end(), fcb, D);
                 print_vector("mean", m);
             }
-            else if (cmd == "PROJ")
+            else if (cmd == "PROJ" || cmd == "PROJI")
             {
-                int D, d, N;
+                int D, d, N, M;
                 is >> D >> d >> N;
+                M = N;
+                if (cmd == "PROJI") is >> M;
                 DenseMatrix P, mr, Xr;
-                if (!is || bad_dim(D, 4096) || bad_dim(d, 4096) || bad_dim(N, 100000) || !read_matrix(is, D, d, P) ||
-                    !read_matrix(is, D, 1, mr) || !read_matrix(is, N, D, Xr))
-                    return bad();
+                std::vector<IndexType> idx(N > 0 ? N : 0);
+                if (!is || bad_dim(D, 4096) || bad_dim(d, 4096) || bad_dim(N, 100000) || bad_dim(M, 100000)) return bad();
+                if (cmd == "PROJI") { if (!read_ids(is, N, M, idx)) return bad(); }
+                else std::iota(idx.begin(), idx.end(), 0);
+                if (!read_matrix(is, D, d, P) || !read_matrix(is, D, 1, mr) || !read_matrix(is, M, D, Xr)) return bad();
                 DenseMatrix X = Xr.transpose();
                 DenseVector m = mr.col(0);
-                std::vector<IndexType> idx(N);
-                std::iota(idx.begin(), idx.end(), 0);
                 eigen_features_callback fcb(X);
                 DenseMatrix E = tapkee_internal::project(P, m, idx.begin(), idx.end(), fcb, D);
                 print_matrix("emb", E);
@@ -106,18 +129,22 @@ int main()
                 DenseVector y = pf(x);
                 print_vector("y", y);
             }
-            else if (cmd == "EMB")
+            else if (cmd == "EMB" || cmd == "EMBI")
             {
                 std::string meth, solver;
-                int N, D, d, kk, nq;
+                int N, D, d, kk, nq, M;
                 is >> meth >> solver >> N >> D >> d >> kk >> nq;
+                M = N;
+                if (cmd == "EMBI") is >> M;
                 DenseMatrix Xr, Qr;
+                std::vector<IndexType> idx(N > 0 ? N : 0);
                 if (!is || method_map().count(meth) == 0 || bad_dim(D, 4096) || bad_dim(N, 100000) || bad_dim(nq, 100000) ||
-                    !read_matrix(is, N, D, Xr) || !read_matrix(is, nq, D, Qr))
+                    bad_dim(M, 100000))
                     return bad();
+                if (cmd == "EMBI") { if (!read_ids(is, N, M, idx)) return bad(); }
+                else std::iota(idx.begin(), idx.end(), 0);
+                if (!read_matrix(is, M, D, Xr) || !read_matrix(is, nq, D, Qr)) return bad();
                 DenseMatrix X = Xr.transpose();
-                std::vector<IndexType> idx(N);
-                std::iota(idx.begin(), idx.end(), 0);
                 eigen_features_callback fcb(X);
                 eigen_kernel_callback kcb(X);
                 eigen_distance_callback dcb(X);
@@ -146,7 +173,7 @@ int main()
                     bool size_ok = true;
                     for (int i = 0; i < N && size_ok; i++)
                     {
-                        DenseVector y = out.projection(X.col(i));
+                        DenseVector y = out.projection(X.col(idx[i]));
                         if (y.size() != PI.cols())
                         {
                             std::cout << "R pisize " << y.size() << std::endl;
